@@ -320,11 +320,7 @@ class SymCtx(_BaseCtx):
             keep = ex.model
             sat = False
             while cons and not sat:
-                try:
-                    sat = ex._raw_check(z3.And(neg, *cons))
-                except sc.Inconclusive:
-                    ex.stats.unknown -= 1
-                    sat = False
+                sat = ex._raw_check(z3.And(neg, *cons), quick=True)
                 if not sat:
                     cons.pop(rnd.randrange(len(cons)))      # out of range in some direction: relax
             ex.model = keep
@@ -857,6 +853,8 @@ def run_check(prop_id, tier='quick', seed=0, budget_s=None, procs=None, replay_s
                     errors.append({'job': t['job'], 'error': r['error']})
                     js['partial'] = True
                 for cex in r['violations']:
+                    if stop:
+                        break           # one confirmed violation is enough: do not spend minutes replaying the rest
                     k = (cex['label'], key)
                     if k in replayed and replayed[k] >= meta.get("replays_per_label", 8):
                         continue
